@@ -348,7 +348,8 @@ def gen_program(rng, tier="quick", allow_hazard=False, nsteps=None, init_rows=No
                 return True
         return False
 
-    kinds = ["concat_e", "partner", "cmp2", "sel", "sel", "sel", "sel", "alias", "ufs", "neg", "ufcol", "ufra", "concat", "sort", "cumsum", "diff", "where", "zeros", "unique",
+    pending_its = []
+    kinds = ["iter_open", "concat_e", "partner", "cmp2", "sel", "sel", "sel", "sel", "alias", "ufs", "neg", "ufcol", "ufra", "concat", "sort", "cumsum", "diff", "where", "zeros", "unique",
              "assign", "assign", "assign", "maskassign", "rowwrite", "ravelwrite", "obs", "obs", "obs"]
     if isf:
         kinds = [k for k in kinds if k not in ("sort", "cumsum", "unique")] + ["ufcol", "ufcol", "ufcol"]
@@ -360,6 +361,16 @@ def gen_program(rng, tier="quick", allow_hazard=False, nsteps=None, init_rows=No
         U = env[u]
         n = len(U)
         maxl = max((len(r) for r in U), default=0)
+        if pending_its and rng.random() < 0.25:
+            it_ = pending_its.pop(rng.randrange(len(pending_its)))
+            steps.append({"op": "iter_drain", "it": it_[0], "u": it_[1], "what": "iter-consumed-later"})
+        if kind == "iter_open":
+            if len(pending_its) < 2:
+                materialise(u)
+                nm_ = "it%d" % len([s_ for s_ in steps if s_["op"] == "iter_open"])
+                steps.append({"op": "iter_open", "u": u, "it": nm_})
+                pending_its.append((nm_, u))
+            continue
         if kind == "concat_e":
             # join with an operand that contributes nothing: a selection of u's columns beyond every row (all rows empty), column-wise,
             # or a selection of none of u's rows, row-wise.  The result is a new array with u's content, never u itself
@@ -585,6 +596,8 @@ def gen_program(rng, tier="quick", allow_hazard=False, nsteps=None, init_rows=No
             steps.append(st)
         else:
             add_obs(u)
+    for it_ in pending_its:
+        steps.append({"op": "iter_drain", "it": it_[0], "u": it_[1], "what": "iter-consumed-later"})
     # observe every variable at the end in a random way (forces the comparison of derived, possibly still lazy arrays)
     for v in list(env):
         if rng.random() < (0.8 if n_obs is None else n_obs):
@@ -597,6 +610,7 @@ def gen_program(rng, tier="quick", allow_hazard=False, nsteps=None, init_rows=No
 def run_model(steps):
     env = {}
     obs = []
+    its = {}
     _CUR["dtype"] = steps[0].get("dtype", "int64") if steps else "int64"
     for si, st in enumerate(steps):
         op = st["op"]
@@ -665,6 +679,10 @@ def run_model(steps):
             env[st["v"]] = _m_partner(env[st["u"]], st["move"])
         elif op == "cmp2":
             pass
+        elif op == "iter_open":
+            its[st["it"]] = st["u"]          # from here on the iterator walks the rows of this array, whatever is done to the array it was selected from
+        elif op == "iter_drain":
+            obs.append((si, [list(r) for r in env[its[st["it"]]]]))
         elif op == "obs":
             f = OBS[st["what"]][1]
             obs.append((si, None if f is None else f(env[st["u"]], st["arg"])))
@@ -699,6 +717,7 @@ def run_lib(steps, mode="L", read_plan=None, purity=False, trace=None):
     env = {}
     obs, extra, breaches = [], [], []
     kept = []         # (step, observation, result object, snapshot): results the caller still holds at the end of the program
+    its = {}          # iterators opened by the program and not yet consumed
     groups = {}       # variable -> alias group id
     hazard_seen = False
 
@@ -814,6 +833,10 @@ def run_lib(steps, mode="L", read_plan=None, purity=False, trace=None):
                 CTX.tick("purity-tap")
                 if not deep_same(after, before):
                     breaches.append((si, "comparison with an array of other row lengths", [v for v in before if not deep_same(before[v], after.get(v))]))
+        elif op == "iter_open":
+            its[st["it"]] = iter(env[st["u"]])       # an iterator that is opened now and consumed later (map / zip / a generator handed to other code)
+        elif op == "iter_drain":
+            obs.append((si, [np.asarray(q).tolist() for q in its[st["it"]]]))
         elif op == "obs":
             before = live_snapshot() if purity else None
             if trace is not None:
